@@ -15,7 +15,7 @@ LEVEL = "fault_enumeration"
 MANIFEST = dict(
     engine="E2-realcluster", engine_path="vlib/realcluster.py",
     kind="real Executor processes with real forked workers, shm server and data server, real Bridge and controller.impl.run; faults injected by task bodies, by a wrapper around the publication notice, and by killing helper processes; event log + process/shm audit",
-    technique="fault-injection on the real cluster with a logical-quiescence hang monitor: for each enumerated fault (task raises / sys.exit(0|3) / os._exit / SIGKILL x before any output / between two outputs / after the shm write but before the notice / after the last notice x task role x cluster shape; SIGKILL/SIGTERM of worker, shm server, data server while idle or during a task) the run must end: a hang is declared only when every live executor completed >=8 further loop iterations, the controller completed >=8 further polls that returned nothing but heartbeats, no acknowledged send is in flight and no task body is running; returned values are compared with sequential evaluation; afterwards the process tree and /dev/shm are audited",
+    technique="fault-injection on the real cluster with a logical-quiescence hang monitor: for each enumerated fault (task raises / sys.exit(0|3) / os._exit / SIGKILL x before any output / between two outputs / between the shm allocation of an output and its close / after the shm write but before the notice / after the last notice x task role x cluster shape; SIGKILL/SIGTERM of worker, shm server, data server while idle, during a task, or after a task on that host has published) the run must end: a hang is declared only when every live executor completed >=8 further loop iterations, the controller completed >=8 further polls that returned nothing but heartbeats, no acknowledged send is in flight and no task body is running; returned values are compared with sequential evaluation; afterwards the process tree and /dev/shm are audited",
     text="Held = no scenario hung, no run returned with a wrong or missing requested value, and after every run (failed or normal) no process started by it and no sCasc<host>* segment remained.",
     note="bounded restatement of 'never hangs' by logical quiescence (the only timers that can end a wait are the executor loop, the 20x0.8 s retry budget and the shutdown grace); a 100 s wall-clock watchdog only ever yields inconclusive; /tmp/*.socket files are not part of the statement.",
 )
@@ -28,10 +28,10 @@ ASSUMPTIONS = ["localhost cluster; ports and host ids unique per concurrent scen
 REQUIRED_COUNTERS = ["scenarios", "faults_fired", "outcome_raised", "outcome_returned", "audits_clean", "kills_fired"]
 
 HOWS = ["raise", "exit0", "exit3", "_exit1", "sigkill"]
-WHENS = ["start", "mid", "before_notice", "after_notice"]
+WHENS = ["start", "mid", "before_notice", "after_notice", "mid_publish"]
 ROLES = ["source", "middle", "sink_req", "sink_unreq"]
 SHAPES = [(1, 1), (1, 2), (2, 1), (2, 2)]
-KILLS = [(w, s, a) for w in ("worker", "shm", "data") for s in ("SIGKILL", "SIGTERM") for a in ("idle", "during_task")]
+KILLS = [(w, s, a) for w in ("worker", "shm", "data") for s in ("SIGKILL", "SIGTERM") for a in ("idle", "during_task", "after_output")]
 
 
 def base_job(slow=False):
@@ -76,7 +76,7 @@ def build_spec(sc, shard_no, slot, index, rng, port_base=12000):
         faults[t] = {"when": sc["when"], "how": sc["how"], "ds": f"{t}.{last}"}
     elif sc["kind"] == "kill":
         kill = {"what": sc["what"], "signal": sc["signal"], "at": sc["at"], "host": sc["host"]}
-        if sc["at"] == "during_task":
+        if sc["at"] in ("during_task", "after_output"):
             sleeps = {"mid": 1.5, "side": 1.5, "src": 0.3}
     if sc.get("random_job"):
         from vlib.jobgen import gen_jobspec
@@ -228,7 +228,11 @@ def run_scenario(col: Collector, sc, shard_no, slot, index, rng, port_base=12000
         col.violation(f"leak:processes:{label}", f"processes still alive {leaks['polls'] * 0.25:.0f} s after the run ended: {leaks['processes']}", wit, index)
         return
     if leaks.get("segments"):
-        col.violation(f"leak:shm-segments:{label}", f"/dev/shm segments left behind: {leaks['segments']}", wit, index)
+        if sc["kind"] == "kill" and sc["what"] == "shm":
+            # keyed by cause, not by signal or moment: nobody unlinks what a killed shm server held
+            col.violation("leak:shm-segments:shm-server-killed-while-holding-datasets", f"{label}: /dev/shm segments left behind: {leaks['segments']}", wit, index)
+        else:
+            col.violation(f"leak:shm-segments:{label}", f"/dev/shm segments left behind: {leaks['segments']}", wit, index)
         return
     col.count("audits_clean")
 
